@@ -58,6 +58,10 @@ func main() {
 		res["id"] = c["id"]
 		enc.Encode(res)
 		w.Flush() // one line per case, so that a fatal crash leaves the finished cases readable
+		if res["_exit"] == true {
+			// a runaway goroutine (hang) is still consuming CPU and memory: report and leave; the driver restarts us
+			os.Exit(0)
+		}
 	}
 }
 
